@@ -201,6 +201,7 @@ def generate_small(rng, tier):
             "solution_limit": rng.choice([1, 1, 1, 2, 3, 4]),
             "seed": rng.choice([None, None, 0, 7, 12345]),
             "gap_tol": rng.choice([None, None, None, 1e-3, 0.05]),
+            "max_nodes": rng.choice([None, None, None, None, 1, 2, 5, 20]),  # a node budget that may run out before anything is proven
             "rng": seams.gen_rng_case(rng, 0.35, 60),
             "pick": rng.getrandbits(20),
         })
@@ -351,6 +352,8 @@ def run_cfg(case, cfg, ref):
                         del kw[k]
             if cfg.get("gap_tol") is not None:
                 kw["gap_tol"] = cfg["gap_tol"]
+            if cfg.get("max_nodes") is not None:
+                kw["max_nodes"] = cfg["max_nodes"]
             res = m.solve_milp(inp[0], inp[1], inp[2], inp[3], **kw)
     except budget.StepBudgetExceeded:
         exceeded = True
